@@ -4,5 +4,25 @@ CHECKS = {
         note="Trusts the reference model in props/C15.py (documented rejections modelled as no-ops that must raise); a species kept with prune_orphans=False is modelled as staying until it takes part in a reaction again.",
         technique="model-based (stateful) property testing: exhaustive + Hypothesis-generated operation histories vs reference model",
     ),
+    "C16": dict(
+        text="Round-trip property testing of the three network views: Hypothesis networks (<= 8 species / 10 reactions, catalysts, duplicates, source/sink reactions, coefficients to 12, molecule labels, caller-chosen ids) under every flag combination documented as invertible, plus all networks over 3 species with <= 1 (quick) / <= 2 (thorough) reactions; export, import, compare edge lists / multisets.",
+        note="Species names follow the documented label shape [A-Z][A-Za-z0-9]*; rule labels contain no whitespace or separators. The species-graph clause asserts ids and stoichiometry only (rules are not claimed).",
+        technique="round-trip property testing (Hypothesis + exhaustive small networks)",
+    ),
+    "C17": dict(
+        text="Differential testing of the stoichiometric analysis against exact rational linear algebra: S recomputed from the reaction list, Fraction rank/kernel, and a two-sided exact decision of conservative/consistent (positive kernel vector or Stiemke alternative, both verified in Fractions, produced by an exact Bland simplex). All one-reaction networks and a slice (quick) / all (thorough) of reaction pairs over 3 species with coefficients 0..2, plus Hypothesis networks to 7 species / 6 reactions and kernel-rich families.",
+        note="Kernel bases are checked with a stated tolerance of 1e-8 relative; integer_conservation_laws is checked for count and length only (documented as approximate). One recorded finding (C17-conservative-unbounded-lp) is excluded by an attribution predicate.",
+        technique="differential property testing against an exact-arithmetic reference with verified certificates",
+    ),
+    "C19": dict(
+        text="Definition-based oracle for complexes, linkage classes, weak reversibility, deficiency and linkage-class deficiencies (exact rank), on textbook networks with literature values, all one-reaction networks and a slice/all of the reaction pairs over 3 species (coefficients 0..2), a systematic sample of triples, and Hypothesis networks to 6 species / 6 reactions (incl. reversible closures); hypergraph and bipartite inputs must agree.",
+        note="Reference implementation in props/C19.py written from the definitions; exact Fraction rank.",
+        technique="property testing against the definitions (exhaustive small networks + Hypothesis)",
+    ),
+    "C20": dict(
+        text="Definition-based oracles: every non-empty species subset tested against the siphon/trap predicates (all unit-coefficient networks over 3 species with <= 2 / <= 3 reactions, Hypothesis networks to 6 species), PetriNet.enabled/fire against pre/post arithmetic on generated markings, and pathway realizability decided exactly by a memoised search over fired-count vectors, with every returned certificate re-executed.",
+        note="Flows are bounded so that prod(f_e+1) <= 10^4, below the library's default search bound, so 'unrealizable within bounds' coincides with 'unrealizable'.",
+        technique="property testing against the Petri-net definitions with exhaustive reachability as reference",
+    ),
 }
 NOT_APPLICABLE = {}
